@@ -46,6 +46,7 @@ Definition brel_of (cl : cname) (c : sctx K) : (Z -> K) -> (Z -> K) -> Z -> K :=
 Definition pre (cl : cname) (c : sctx K) : Prop :=
   match cl with
   | cCCCS => ctrl_is_vsrc c = true
+  | cCCVS => ctrl_is_vsrc c = true
   | cK => akind_eqb (kind c) KT || akind_eqb (kind c) KTime = false
   | cTL => akind_eqb (kind c) KS || akind_eqb (kind c) KDc = true
   | cTPA | cTPB | cTPG | cTPH | cTPY | cTPZ => tp_has_src c = false
